@@ -1,4 +1,4 @@
-CONSTANTS MAXOPS = 5
+CONSTANTS MAXOPS = 6
 MAXTAG = 3
 MAXNAME = 4
 INIT Init
